@@ -132,6 +132,8 @@ PROPS = {
                     'reference model allows, traversal/size()/empty()/check_consistency() compared after every sequence; non-trivial = >=3 calls incl. a mutation and its observation; distinct = fingerprint of the call/result sequence'},
     'C21': {'jobs': sync_jobs('freelist', ['dbg', 'asan', 'tsan'], ['dbg', 'rel', 'asan', 'tsan'])},
     'C22': {'jobs': sync_jobs('locks', ['dbg', 'asan', 'tsan'], ['dbg', 'rel', 'asan', 'tsan'], nq=3, nt=7)},
+    'C23': {'jobs': set_jobs(['fc_kernel'], 3, 5, special={'fc_kernel': [('+wakeup_any', 2)]}, asan_scale=0.5),
+            'mechanisms_required': ['fc.onCombining', 'fc.onCompactPublicationList', 'fc.onDeactivatePubRecord', 'fc.onDeletePubRecord', 'fc.onPassiveToCombiner']},
     'C24': {'jobs': sync_jobs('pools', ['dbg', 'asan'], ['dbg', 'rel', 'asan'], nq=2, nt=4)},
     'C25': {'jobs': jobs_pure, 'exhaustive': True},
     'C26': {'jobs': jobs_pure, 'exhaustive': True},
